@@ -529,6 +529,50 @@ pub fn exec(line: &str, _model: &mut Model) -> Option<Exec> {
             if r.is_none() { e.oracle_fail = Some("formatting a creation timestamp panics".into()); }
             Some(e)
         }
+        "ts.sinks" => {
+            // formatting into sinks that are not a plain String: a writer that itself formats a creation timestamp
+            // whenever it is handed a piece of text (a log line stamper), and formatting from a thread-local's
+            // destructor while the thread shuts down (in both registration orders). None of these may panic.
+            let x: u64 = t.get(1)?.parse().ok()?;
+            let sq: u64 = t.get(2)?.parse().ok()?;
+            let ts = CreationTimestamp::with_time_and_seq(x, sq);
+            let plain = no_panic(|| ts.to_string());
+            struct Stamper { out: String, inner: CreationTimestamp, busy: bool, stamps: u32 }
+            impl std::fmt::Write for Stamper {
+                fn write_str(&mut self, p: &str) -> std::fmt::Result {
+                    if !self.busy { self.busy = true; let st = self.inner.to_string(); self.stamps += 1; if st.is_empty() { return Err(std::fmt::Error); } self.busy = false; }
+                    self.out.push_str(p); Ok(())
+                }
+            }
+            let ts2 = ts.clone();
+            let nested = no_panic(move || { use std::fmt::Write; let mut w = Stamper { out: String::new(), inner: ts2.clone(), busy: false, stamps: 0 }; let r = write!(w, "{}", ts2); (r.is_ok(), w.out) });
+            // thread shutdown: a destructor that formats, registered before / after the thread's first formatting
+            struct AtExit(std::cell::Cell<Option<(u64, u64)>>, std::sync::Arc<std::sync::Mutex<Option<bool>>>);
+            impl Drop for AtExit { fn drop(&mut self) { if let Some((a, b)) = self.0.get() { let ok = std::panic::catch_unwind(|| CreationTimestamp::with_time_and_seq(a, b).to_string()).is_ok(); *self.1.lock().unwrap() = Some(ok); } } }
+            thread_local! { static AT_EXIT: AtExit = AtExit(std::cell::Cell::new(None), std::sync::Arc::new(std::sync::Mutex::new(None))); }
+            let mut at_exit_ok = true;
+            for first in [true, false] {
+                let res = std::sync::Arc::new(std::sync::Mutex::new(None));
+                let r2 = res.clone();
+                let _ = std::thread::spawn(move || {
+                    let arm = || { let g = AtExit(std::cell::Cell::new(Some((x, sq))), r2.clone()); LOCAL_GUARDS.with(|v| v.borrow_mut().push(g)); };
+                    thread_local! { static LOCAL_GUARDS: std::cell::RefCell<Vec<AtExit>> = const { std::cell::RefCell::new(Vec::new()) }; }
+                    if first { arm(); let _ = std::panic::catch_unwind(|| CreationTimestamp::with_time_and_seq(x, sq).to_string()); }
+                    else { let _ = std::panic::catch_unwind(|| CreationTimestamp::with_time_and_seq(x, sq).to_string()); arm(); }
+                }).join();
+                if *res.lock().unwrap() == Some(false) { at_exit_ok = false; }
+            }
+            let _ = &AT_EXIT;
+            let mut e = Exec::new(match &plain { Some(v) => format!("ok {}", hex(v.as_bytes())), None => "panic".into() });
+            match (&plain, &nested) {
+                (Some(p), Some((true, out))) if out == p => {}
+                (Some(_), other) => e.oracle_fail = Some(format!("formatting a creation timestamp into a writer that itself formats one: {:?}", other.as_ref().map(|x| &x.1))),
+                _ => {}
+            }
+            if !at_exit_ok && e.oracle_fail.is_none() { e.oracle_fail = Some("formatting a creation timestamp from a thread-local destructor at thread exit panics".into()); }
+            if plain.is_none() { e.oracle_fail = Some("formatting a creation timestamp panics".into()); }
+            Some(e)
+        }
         "time.mt" => {
             // several threads format different times at once: whatever string() remembers between calls must not
             // leak from one caller to another. Answer = what every thread saw (one string per time when all is well).
@@ -1139,6 +1183,22 @@ fn gen_c17(rng: &mut Rng, ctx: &mut Ctx, rep: &mut Report, emit: Emit) {
         let ts: Vec<String> = (0..k).map(|i| match rng.below(4) { 0 => base, 1 => base ^ (1 << rng.below(20)), 2 => base.wrapping_add(i * 1000), _ => rng.below(252_455_616_000_000) }.to_string()).collect();
         emit(ctx, rep, format!("time.mt {}", ts.join(" ")));
     }
+    // times whose seconds are a multiple of 2^32 apart (anything keyed by a narrowed second collides there), back to
+    // back on one thread and as the very first formatting of fresh threads; unix seconds that ARE multiples of 2^32
+    for k in 1..=58u64 {
+        let unix_ms = (k << 32) * 1000;
+        if unix_ms < MS2K { continue; }
+        let t0 = unix_ms - MS2K;
+        if k % 7 == 1 || ctx.tier_thorough { emit(ctx, rep, format!("time.mt {} {}", t0, t0 + 999)); emit(ctx, rep, format!("time.string {}", t0)); }
+    }
+    for _ in 0..ctx.n(300, 20_000) {
+        let t = rng.below(4_102_444_800_000);
+        let k = 1 + rng.below(50);
+        let u = t + (k << 32) * 1000;
+        emit(ctx, rep, format!("time.string {}", t)); emit(ctx, rep, format!("time.string {}", u)); emit(ctx, rep, format!("time.string {}", t + 1));
+        if rng.chance(1, 4) { emit(ctx, rep, format!("time.string {}", t + (1u64 << 32))); emit(ctx, rep, format!("time.string {}", t + (1u64 << 16) * 1000)); }
+    }
+    for _ in 0..ctx.n(30, 1_000) { emit(ctx, rep, format!("ts.sinks {} {}", match rng.below(3) { 0 => rng.below(252_455_616_000_000), 1 => 0, _ => rng.u64b() }, rng.u64b())); }
     // the real clock across at least two changes of the second
     emit(ctx, rep, format!("time.real {}", ctx.n(2_200, 12_000)));
 }
